@@ -42,6 +42,17 @@ def cases(tier, seed):
                 continue  # MatNet's one-hot column embedding needs embed_dim >= number of nodes (zoo networks are 32 wide)
             for r in range(2 if q else 10):
                 out.append(dict(policy=kind, env=env, n=n, m=6 if q else 8, s=rnd.randrange(10**6), wseed=r, extra=extra))
+    # mixture-of-experts encoder/decoder (MVMoE) with non-trivial gates
+    for env in ("tsp", "cvrp", "mtvrp"):
+        for n in ((6, 10) if q else (6, 10, 20)):
+            for r in range(2 if q else 6):
+                out.append(dict(policy="am_moe", env=env, n=n, m=6 if q else 8, s=rnd.randrange(10**6), wseed=r, extra={}))
+        out.append(dict(policy="am_moe_light", env=env, n=8, m=6, s=rnd.randrange(10**6), wseed=0, extra={}))
+    # greedy decoding under logit filters (the log-likelihood then depends on the filter, which must stay per-row)
+    for env in ("cvrp", "pctsp", "sdvrp", "op"):
+        for dk in (dict(top_k=3), dict(top_p=0.9, temperature=0.7), dict(top_k=2, tanh_clipping=10.0)):
+            for r in range(2 if q else 6):
+                out.append(dict(policy="am", env=env, n=rnd.choice([8, 12]), m=6 if q else 8, s=rnd.randrange(10**6), wseed=r, extra={}, decode_kw=dk))
     for env in ("tsp", "cvrp", "sdvrp", "pctsp", "pdp", "op"):
         for n in ((6, 8) if q else (6, 8, 10, 20)):
             for r in range(2 if q else 6):
